@@ -532,14 +532,56 @@ def pred_text(case, stats):
                        expected={'segments': segs, 'count': o['count']})
 
 
-CLAUSES = {'settings': pred_settings, 'text': pred_text}
+def pred_text_more(case, stats):
+    """Two further textual clauses on numeric paths: (1) a path that skips a level ([class, attribute], [instance, attribute],
+    [class, instance, element]) is formatted so that it parses back to the same segments (off-position segments in JSON form);
+    (2) get_attribute.attribute_operations: '@c/i/a=v,...' without a cast denotes a Set Attribute Single of SINT data (documented
+    default), '@c/i/a' a Get Attribute Single, '@c/i' Get Attributes All."""
+    from cpppo.server.enip import client, get_attribute
+    o = case
+    if not o['numeric'] or len(o['cia']) < 3:
+        return
+    c_, i_, a_ = o['cia']
+    for segs in ([{'class': c_}, {'attribute': a_}], [{'instance': i_}, {'attribute': a_}], [{'class': c_}, {'instance': i_}, {'element': a_}],
+                 [{'class': c_}, {'instance': i_}, {'attribute': a_}]):
+        try:
+            ftext = client.format_path(segs)
+            back, elm, cnt = client.parse_path_elements(ftext)
+        except Exception as exc:
+            stats.fail('text', 'format-parse-path-raised', case, observed={'segments': segs, 'error': '%s: %s' % (type(exc).__name__, str(exc)[:200])},
+                       expected='format_path output parses back')
+            return
+        if [dict(x) for x in back] != segs:
+            stats.fail('text', 'formatted-path-parses-to-other-segments', case, observed={'formatted': ftext, 'parsed': [dict(x) for x in back]},
+                       expected={'segments': segs})
+            return
+    vals = [int(v) % 200 - 60 for v in (o.get('values') or [3, 250, -5]) if isinstance(v, (int, float)) and not isinstance(v, bool)][:4] or [7]
+    texts = ['@%d/%d/%d=%s' % (c_, i_, a_, ','.join(str(v) for v in vals)), '@%d/%d/%d' % (c_, i_, a_), '@%d/%d' % (c_, i_)]
+    want = [('set_attribute_single', rc.tcode('SINT'), vals), ('get_attribute_single', None, None), ('get_attributes_all', None, None)]
+    try:
+        got = list(get_attribute.attribute_operations(texts))
+    except Exception as exc:
+        stats.fail('text', 'well-formed-operation-rejected', case, observed={'texts': texts, 'error': '%s: %s' % (type(exc).__name__, str(exc)[:200])},
+                   expected='three attribute operations')
+        return
+    seen = [(g.get('method'), g.get('tag_type') if 'data' in g else None, list(g['data']) if 'data' in g else None) for g in got]
+    if seen != want:
+        stats.fail('text', 'attribute-operation-text-denotes-other-operation', case, observed={'texts': texts, 'parsed': seen}, expected=want)
+
+
+def pred_text_all(case, stats):
+    pred_text(case, stats)
+    pred_text_more(case, stats)
+
+
+CLAUSES = {'settings': pred_settings, 'text': pred_text_all}
 STRATEGIES = {'settings': lambda k: setting_cases(k), 'text': lambda k: text_cases()}
 
 
 def shard(job):
     seed, i, n, k, ntext = job
     s = Stats()
-    common.hyp_run(s, text_cases(), pred_text, ntext, common.shard_seed(seed, i) + 3, 'text', PID)
+    common.hyp_run(s, text_cases(), pred_text_all, ntext, common.shard_seed(seed, i) + 3, 'text', PID)
     common.hyp_run(s, setting_cases(k), pred_settings, n, common.shard_seed(seed, i), 'settings', PID, skey=k)
     return s
 
